@@ -1518,6 +1518,48 @@ func genHistorical(r *hx.Rng, i int, interpretedOnly bool) *Scenario {
 	return sc
 }
 
+
+// boundaryFamilyCorr: deterministic small-scope family for the correspondence, emitted before
+// anything random: one miner transaction per scenario with stake / amount exactly at, one below and
+// one above the minimum stake, for both miner types and every status.
+func boundaryFamilyCorr() []*Scenario {
+	src := poolAddrs[0]
+	var res []*Scenario
+	n := 0
+	for _, typ := range []byte{0, 1} {
+		min := uint64(400)
+		if typ == 1 {
+			min = 2000
+		}
+		for _, status := range []byte{0, 1, 2} {
+			for _, stake := range []uint64{min - 1, min, min + 1} {
+				for _, delta := range []uint64{0, 1, 2} {
+					n++
+					d, _ := json.Marshal(types.Miner{Id: []byte{0xa1, byte(n)}, Stake: delta})
+					res = append(res, &Scenario{Name: fmt.Sprintf("addstake-boundary-%d", n), Height: 100, Flags: "111111", P026: true,
+						Accounts: []Acct{{src, e18(50).String(), 0}},
+						Miners:   []MinerS{{Id: hex.EncodeToString([]byte{0xa1, byte(n)}), Type: typ, Stake: stake, Account: src, Status: status}},
+						Txs:      []TxS{{Source: "0x" + src, Type: 5, Hash: hex.EncodeToString(common.Sha256([]byte{1, byte(n)})), Data: string(d)}}})
+				}
+			}
+		}
+		for _, stake := range []uint64{min, min + 1, 2 * min} {
+			for _, left := range []uint64{0, min - 1, min, min + 1} {
+				if left > stake {
+					continue
+				}
+				n++
+				d, _ := json.Marshal(map[string]string{"Amount": strconv.FormatUint(stake-left, 10), "MinerId": "0x" + hex.EncodeToString([]byte{0xa2, byte(n)})})
+				res = append(res, &Scenario{Name: fmt.Sprintf("refund-boundary-%d", n), Height: 100, Flags: "111111", P026: true,
+					Accounts: []Acct{{src, e18(50).String(), 0}},
+					Miners:   []MinerS{{Id: hex.EncodeToString([]byte{0xa2, byte(n)}), Type: typ, Stake: stake, Account: src}},
+					Txs:      []TxS{{Source: "0x" + src, Type: 4, Hash: hex.EncodeToString(common.Sha256([]byte{2, byte(n)})), Data: string(d)}}})
+			}
+		}
+	}
+	return res
+}
+
 // ---------------------------------------------------------------- direct site ops
 
 func emitSiteOps(out *hx.Out, r *hx.Rng, i int) {
@@ -2359,6 +2401,9 @@ func main() {
 		if len(sc.GlobalHeights) == 0 {
 			emitScenario(out, r, sc)
 		}
+	}
+	for _, sc := range boundaryFamilyCorr() {
+		emitScenario(out, r, sc)
 	}
 	for i := 0; i < n; i++ {
 		switch {
